@@ -202,6 +202,7 @@ const (
 	EvExecPanic
 	EvLogger
 	EvNested
+	EvClockAdv // the clock moved while a loader was running (N = by how much)
 )
 
 const (
@@ -269,6 +270,8 @@ func (e Event) String() string {
 		return "executor task panicked"
 	case EvLogger:
 		return "logger.Error"
+	case EvClockAdv:
+		return fmt.Sprintf("clock advanced by %d inside the loader", e.N)
 	case EvNested:
 		return fmt.Sprintf("nested no-op compute %d (key=%d) saw (%d,%v)", e.Sub, e.Key, e.Old, e.Found)
 	}
@@ -313,6 +316,7 @@ type loadPlan struct {
 	Extra   []int // extra keys volunteered
 	PanicOf int   // 0 error value, 1 string
 	Nested  int   // 1: Compute answering CancelOp, 2: ComputeIfAbsent answering cancel, run on the key from inside the loader
+	Adv     int64 // the loader takes this long on the cache's clock
 }
 
 // Env wires one cache to the log.
@@ -576,9 +580,21 @@ func (e *Env) nested(which, key int) {
 	e.add(Event{Kind: EvNested, Sub: which, Key: key, Old: saw, Found: found})
 }
 
+// slow lets the loader take time on the cache's clock: everything the cache stamps after the loader
+// returned (deadlines of what it installs, expiry of what it replaces) must use the later reading.
+func (e *Env) slow(adv int64) {
+	if adv <= 0 || !e.Cfg.WithTime() {
+		return
+	}
+	before := e.Clock.NowNano()
+	e.Clock.Advance(adv)
+	e.add(Event{Kind: EvClockAdv, N: e.Clock.NowNano() - before})
+}
+
 func (e *Env) single(kind, key, old int) (int, error) {
 	e.add(Event{Kind: EvLoadEnter, Sub: kind, Key: key, Old: old})
 	p := e.plans[kind]
+	e.slow(p.Adv)
 	if kind == LkLoad { // (on a live key - a reload - the computation counts as a read and moves deadlines)
 		e.nested(p.Nested, key)
 	}
@@ -608,6 +624,7 @@ func (e *Env) single(kind, key, old int) (int, error) {
 func (e *Env) bulk(kind int, keys, olds []int) (map[int]int, error) {
 	e.add(Event{Kind: EvLoadEnter, Sub: kind, Keys: append([]int(nil), keys...), Olds: append([]int(nil), olds...)})
 	p := e.plans[kind]
+	e.slow(p.Adv)
 	if len(keys) > 0 && kind == LkBulkLoad {
 		e.nested(p.Nested, keys[int(p.Mask>>32)%len(keys)])
 	}
